@@ -452,3 +452,65 @@ def m_seek_relative(c):
         return io_err(ERRKIND['InvalidInput'])
     h.pos += k
     return ok(UNIT)
+
+
+class TakeR:
+    """io::Read::take adaptor: at most `limit` further bytes of the underlying handle"""
+
+    def __init__(self, h, limit):
+        self.h = h
+        self.limit = limit
+
+
+@pattern(r'^<.* as Read>::by_ref$|^Read::by_ref$|^<.* as Write>::by_ref$')
+def m_by_ref(c):
+    return c.args[0]
+
+
+@pattern(r'^<.* as Read>::take$|^Read::take$')
+def m_take(c):
+    h = deref(c.st, c.args[0])
+    if not isinstance(h, FileH):
+        raise Unsupported('take on ' + type(h).__name__)
+    return TakeR(h, c.args[1])
+
+
+@model('std::io::sink', 'io::sink', 'sink')
+def m_sink(c):
+    return Opaque('io::Sink')
+
+
+@model('std::io::copy', 'io::copy', 'copy')
+def m_io_copy(c):
+    """io::copy(reader, writer): moves everything the reader yields; a short source is NOT an error"""
+    r = deref(c.st, c.args[0])
+    w = deref(c.st, c.args[1])
+    if isinstance(r, TakeR):
+        h = r.h
+        avail = len(h.f.data) - h.pos
+        lim = z3.simplify(r.limit.v)
+        if z3.is_bv_value(lim):
+            n = min(lim.as_long(), avail)
+        else:
+            cands = [k for k in range(0, avail + 1) if c.st.feasible(z3.If(z3.ULE(r.limit.v, avail), r.limit.v, z3.BitVecVal(avail, 64)) == k)]
+            i = c.st.choose(len(cands), 'io::copy length')
+            n = cands[i]
+            c.st.assume(z3.If(z3.ULE(r.limit.v, avail), r.limit.v, z3.BitVecVal(avail, 64)) == n)
+    elif isinstance(r, FileH):
+        h = r
+        n = len(h.f.data) - h.pos
+    else:
+        raise Unsupported('io::copy from ' + type(r).__name__)
+    data = h.f.data[h.pos:h.pos + n]
+    h.pos += n
+    if isinstance(w, Opaque):
+        pass
+    elif isinstance(w, BufW):
+        w.buf.extend(data)
+    elif isinstance(w, FileH):
+        file_write(w, data)
+    elif isinstance(w, Seq):
+        w.force(c.st).extend(data)
+    else:
+        raise Unsupported('io::copy into ' + type(w).__name__)
+    return ok(Int(z3.BitVecVal(n, 64), False))
